@@ -30,6 +30,74 @@ SCOPE_NODE_NAMES = {
 }
 
 
+IMPLICIT_CONFIG_NAMES = {
+    "translations", "locale", "input_locale", "timezone", "input_timezone", "currency_code",
+    "currency_format", "datetime_format", "decimal_format", "decimal_quantization", "unit_format",
+    "unit_length",
+}
+
+
+def _attrs(obj: Any) -> list[str]:
+    names: list[str] = []
+    for c in type(obj).__mro__:
+        sl = getattr(c, "__slots__", ())
+        names += [sl] if isinstance(sl, str) else list(sl)
+    d = getattr(obj, "__dict__", None)
+    if d:
+        names += list(d)
+    return names
+
+
+def locate(node: Any, token: Any, want: str) -> str:
+    """Where, below the rendering *node*, lives the expression object of class *want*
+    that owns *token*: 'Class.attr>Class.attr' (the last three links).  Only used to name
+    the mechanism of a violation, never to decide one."""
+    if node is None or token is None:
+        return ""
+    from liquid2.ast import Node
+
+    seen: set[int] = set()
+
+    def walk(o: Any, chain: list[str], depth: int) -> list[str] | None:
+        if depth > 14 or o is None or isinstance(o, (str, int, float, bool)) or id(o) in seen:
+            return None
+        seen.add(id(o))
+        if type(o).__name__ == want and getattr(o, "token", None) is token:
+            return chain
+        if isinstance(o, (list, tuple)):
+            for x in o:
+                r = walk(x, chain, depth + 1)
+                if r is not None:
+                    return r
+            return None
+        if isinstance(o, dict):
+            for x in o.values():
+                r = walk(x, chain, depth + 1)
+                if r is not None:
+                    return r
+            return None
+        if not type(o).__module__.startswith("liquid2"):
+            return None
+        if isinstance(o, Node) and depth > 0:
+            return None
+        for a in _attrs(o):
+            if a in ("token", "env", "source", "blank"):
+                continue
+            try:
+                v = getattr(o, a)
+            except AttributeError:
+                continue
+            r = walk(v, chain + [f"{type(o).__name__}.{a}"], depth + 1)
+            if r is not None:
+                return r
+        return None
+
+    chain = walk(node, [], 0)
+    if not chain or len(chain) < 2:
+        return ""
+    return ">".join(chain[1:][-3:])
+
+
 def _node_name(node: Any) -> str:
     cls = type(node)
     n = cls.__name__
@@ -69,6 +137,9 @@ class Recorder:
     def node_top(self) -> str:
         return _node_name(self.node_stack[-1]) if self.node_stack else "<template>"
 
+    def node_obj(self) -> Any:
+        return self.node_stack[-1] if self.node_stack else None
+
     def scope_node(self) -> str:
         for n in reversed(self.node_stack):
             nm = _node_name(n)
@@ -100,7 +171,7 @@ class Recorder:
             return
         key = (token.source, token.start, token.stop)
         if key not in self.lookups:
-            self.lookups[key] = (list(path), self.node_top())
+            self.lookups[key] = (list(path), self.node_top(), self.node_obj(), token)
 
     def on_global(self, key: object) -> None:
         self.n_global += 1
@@ -156,7 +227,7 @@ class Recorder:
         key = (getattr(token, "source", None), getattr(token, "start", None),
                getattr(token, "stop", None), name)
         if key not in self.filters:
-            self.filters[key] = self.node_top()
+            self.filters[key] = (self.node_top(), self.node_obj(), token)
 
     def on_namespace(self, ns: Any) -> None:
         try:
@@ -768,7 +839,7 @@ class Checker:
         def names(src: Any) -> list[str]:
             return cs.names_of.get(src, [])
 
-        for (src, start, stop), (path, node) in rec.lookups.items():
+        for (src, start, stop), (path, node, nobj, tok) in rec.lookups.items():
             if root_only and src != root_src:
                 continue
             n["lookups"] += 1
@@ -784,7 +855,8 @@ class Checker:
                 tn = names(src)
                 text = src[start:stop] if isinstance(src, str) and 0 <= start <= stop <= len(src) else None
                 near = [segs for nm in tn for segs in st.var_at.get((nm, start, stop), ())]
-                out.append((f"vars:missing@{node}",
+                where = locate(nobj, tok, "Path")
+                out.append((f"vars:missing@{node}" + (f":{where}" if where else ""),
                             f"the render looked up {_short_path(path)} at {tn}[{start}:{stop}] = {text!r} "
                             f"but analyze().variables has no such entry there"
                             + (f" (entries at that span: {near!r})" if near else ""),
@@ -795,10 +867,13 @@ class Checker:
                 out.append((f"vars:missing@{node}:tokenless",
                             f"the render looked up {root!r} (no token) but analyze().variables has no {root!r}",
                             {"root": root}))
+        bound = binders | rec.bound_names()
         for (name, owner), info in rec.resolves.items():
             if root_only and info.get("source") != root_src:
                 continue
             n["resolves"] += 1
+            if name not in bound:
+                continue  # decided by the globals check below
             tn = names(info.get("source"))
             ok = False
             for nm in tn:
@@ -810,12 +885,13 @@ class Checker:
                             f"{owner} looked up {name!r} with context.resolve(); the name reached the global "
                             f"namespace but analyze().variables has no {name!r} inside that markup",
                             {"name": name, "owner": owner, "template": tn}))
-        for (src, start, stop, name), node in rec.filters.items():
+        for (src, start, stop, name), (node, nobj, tok) in rec.filters.items():
             if root_only and src != root_src:
                 continue
             n["filters"] += 1
             if not any((nm, start, stop, name) in st.filter_at for nm in names(src)):
-                out.append((f"filters:missing@{node}",
+                where = locate(nobj, tok, "Filter") or node
+                out.append((f"filters:missing@{where}",
                             f"the render applied filter {name!r} at {names(src)}[{start}:{stop}] but "
                             f"analyze().filters has no such entry",
                             {"filter": name, "template": names(src), "start": start, "stop": stop}))
@@ -828,7 +904,6 @@ class Checker:
                             f"the render executed tag {name!r} ({node}) at {names(src)}[{start}:{stop}] but "
                             f"analyze().tags has no such entry",
                             {"tag": name, "template": names(src), "start": start, "stop": stop}))
-        bound = binders | rec.bound_names()
         for name, info in rec.global_hits.items():
             loc = info.get("loc")
             if root_only and (loc is None or loc[0] != root_src):
@@ -840,7 +915,7 @@ class Checker:
             if name in st.global_names:
                 continue
             if info["via"] == "resolve":
-                kind = f"resolve@{info['owner']}"
+                kind = ("implicit-config" if name in IMPLICIT_CONFIG_NAMES else "message-variable") + f"@{info['owner']}"
             elif name not in st.variable_names:
                 kind = "unreported-variable"
             else:
@@ -900,7 +975,10 @@ def run_case(chk: Checker, case: dict[str, Any]) -> list[tuple[str, str, dict[st
     st = Static(a)
     chk.check_spans(cs, st, out)
     if case.get("posmap"):
-        chk.check_posmap(cs, st, case["posmap"], out)
+        flagged = {(d.get("template_name"), d.get("start"), d.get("end")) for _k, _w, d in out}
+        more: list[tuple[str, str, dict[str, Any]]] = []
+        chk.check_posmap(cs, st, case["posmap"], more)
+        out += [m for m in more if (m[2].get("template_name"), m[2].get("start"), m[2].get("end")) not in flagged]
     chk.check_async_and_helpers(cs, a, out)
     binders = set(case.get("binders") or ())
     rec = chk.rec
